@@ -3,6 +3,7 @@ package hostile
 import (
 	crand "crypto/rand"
 	"math/rand"
+	"sync"
 
 	"github.com/anyproto/any-sync/commonspace/object/accountdata"
 	"github.com/anyproto/any-sync/util/cidutil"
@@ -23,7 +24,94 @@ func must0(err error) {
 	}
 }
 
-func newAccount() *accountdata.AccountKeys { return must(accountdata.NewRandom()) }
+// keyring: every private / symmetric key the harness ever creates. The renderer uses it to open
+// an encrypted field of a valid message (to mutate the plaintext) and to seal it again for the
+// same recipient - what a hostile author, who chooses the plaintext, can do.
+var keyring struct {
+	sync.Mutex
+	privs []crypto.PrivKey
+	syms  []crypto.SymKey
+}
+
+func regPriv(k crypto.PrivKey) crypto.PrivKey {
+	keyring.Lock()
+	keyring.privs = append(keyring.privs, k)
+	keyring.Unlock()
+	return k
+}
+
+func regSym(k crypto.SymKey) crypto.SymKey {
+	keyring.Lock()
+	keyring.syms = append(keyring.syms, k)
+	keyring.Unlock()
+	return k
+}
+
+func newAES() *crypto.AESKey {
+	k := crypto.NewAES()
+	regSym(k)
+	return k
+}
+
+func newAccount() *accountdata.AccountKeys {
+	acc := must(accountdata.NewRandom())
+	regPriv(acc.SignKey)
+	return acc
+}
+
+// openField decrypts an encrypted field with whichever known key fits and returns a function that
+// seals a (mutated) plaintext for the same recipient.
+type openedField struct {
+	pt   []byte
+	seal func([]byte) []byte
+}
+
+var openCache = map[string]*openedField{}
+
+func openField(kind string, ct []byte) (pt []byte, seal func([]byte) []byte, ok bool) {
+	if o, hit := openCache[kind+string(ct)]; hit {
+		if o == nil {
+			return nil, nil, false
+		}
+		return o.pt, o.seal, true
+	}
+	pt, seal, ok = openFieldSlow(kind, ct)
+	if ok {
+		openCache[kind+string(ct)] = &openedField{pt, seal}
+	} else {
+		openCache[kind+string(ct)] = nil
+	}
+	return
+}
+
+func openFieldSlow(kind string, ct []byte) (pt []byte, seal func([]byte) []byte, ok bool) {
+	keyring.Lock()
+	privs := append([]crypto.PrivKey{}, keyring.privs...)
+	syms := append([]crypto.SymKey{}, keyring.syms...)
+	keyring.Unlock()
+	if kind == "ct_x25519" {
+		if len(ct) < 48 {
+			return nil, nil, false
+		}
+		for _, k := range privs {
+			if p, err := k.Decrypt(ct); err == nil {
+				pub := k.GetPublic()
+				return p, func(b []byte) []byte { return must(pub.Encrypt(b)) }, true
+			}
+		}
+		return nil, nil, false
+	}
+	if len(ct) < 28 {
+		return nil, nil, false
+	}
+	for _, k := range syms {
+		if p, err := k.Decrypt(ct); err == nil {
+			k := k
+			return p, func(b []byte) []byte { return must(k.Encrypt(b)) }, true
+		}
+	}
+	return nil, nil, false
+}
 
 func pubProto(k crypto.PrivKey) []byte { return must(k.GetPublic().Marshall()) }
 
@@ -88,7 +176,7 @@ func keyValue(op string, cur []byte, env *renderEnv) []byte {
 }
 
 func newRenderEnv(rnd *rand.Rand) *renderEnv {
-	other := newAccount()
+	other := must(accountdata.NewRandom()) // not in the keyring: nobody can open what is sealed for it
 	otherPub := pubProto(other.SignKey)
 	aes := crypto.NewAES()
 	env := &renderEnv{
@@ -99,4 +187,21 @@ func newRenderEnv(rnd *rand.Rand) *renderEnv {
 		otherCtAes: must(aes.Encrypt([]byte("some plaintext that the receiver cannot read"))),
 	}
 	return env
+}
+
+// regDerived registers, for every symmetric key known so far, the key derived from it with the
+// given function (trees and key-value stores encrypt with a key derived from the space read key).
+func regDerived(derive func(raw []byte) (crypto.SymKey, error)) {
+	keyring.Lock()
+	syms := append([]crypto.SymKey{}, keyring.syms...)
+	keyring.Unlock()
+	for _, k := range syms {
+		raw, err := k.Raw()
+		if err != nil {
+			continue
+		}
+		if d, err := derive(raw); err == nil {
+			regSym(d)
+		}
+	}
 }
